@@ -1,8 +1,13 @@
+import SignaloModel.Proofs.BridgeDeque
 import SignaloModel.Proofs.DequeMin
 /-!
 # C04 — Moving min/max/bounds equal the extrema of the last min(k,N) samples
 
-Property theorems for C04 (statements are printed by `#check`, axioms by `#print axioms`;
+Property theorems for C04 (statements are printed by `#check`, axioms by `#check @Registry.max_registry_correct
+#check @Registry.min_registry_correct
+#check @Registry.extremum_of_isMax
+#check @Registry.extremum_of_isMin
+#print axioms`;
 `bin/check C04` re-elaborates this file on every run and audits the axiom lists).
 -/
 open SignaloModel
@@ -18,3 +23,7 @@ open SignaloModel
 #print axioms Deque.runB_correct
 #print axioms Deque.stepU_correct
 #print axioms Deque.tick_rel
+#print axioms Registry.max_registry_correct
+#print axioms Registry.min_registry_correct
+#print axioms Registry.extremum_of_isMax
+#print axioms Registry.extremum_of_isMin
